@@ -47,4 +47,21 @@ PLANS = {
         ],
         "assumptions": ["sequential mode relies on sim_quiesce to make 'arrival' a definite point"],
     },
+    "C08": {
+        "level": "exploration",
+        "rule": NT_RULE + "; C08: at least one message crossed the PAIR connection and was compared with the model "
+                          "(c08_fifo: tagged FIFO exchange A<->peer; c08_hops: a hop-header batch from the raw wire peer)",
+        "budget_s": {"quick": 50, "thorough": 900},
+        "scenarios": [
+            S("c08_fifo", 1600, 48000),
+            S("c08_hops", 900, 27000),
+        ],
+        "assumptions": [
+            "a shrink of NNG_OPT_SENDBUF/RECVBUF may discard queued messages (property C18): serials offered before a "
+            "shrink on their path are only required to arrive in order and at most once",
+            "'none lost' is decided after all sends were accepted and no delivery happened for 2 s of virtual time "
+            "(injected stalls subtracted); blocking sends get 20 s",
+            "the raw wire peer speaks SP/TCP and SP/IPC framing; MAXTTL range is 1..15 (NNI_MAX_MAX_TTL)",
+        ],
+    },
 }
